@@ -118,7 +118,7 @@ def free_udp_port(family=socket.AF_INET):
 
 class Server:
     def __init__(self, binary, directory, *, single=False, read_only=False, overwrite=False, keep=False, send_dir=None, recv_dir=None,
-                 dup=None, ip="127.0.0.1", logdir=None, strace=None, extra=(), tag="srv", shuffle=None):
+                 dup=None, ip="127.0.0.1", logdir=None, strace=None, extra=(), tag="srv", shuffle=None, d_last=False):
         self.binary, self.ip = binary, ip
         self.family = socket.AF_INET6 if ":" in ip else socket.AF_INET
         self.args = ["-i", ip, "-d", directory]
@@ -137,7 +137,13 @@ class Server:
         if dup is not None:
             self.args += ["--duplicate-packets", str(dup)]
         self.args += list(extra)
-        if shuffle is not None:
+        if d_last:
+            # `-d` after the explicit send / receive directories must not override them
+            i = self.args.index("-d")
+            dpair = self.args[i:i + 2]
+            del self.args[i:i + 2]
+            self.args += dpair
+        elif shuffle is not None:
             # flag order must not matter: permute the option groups (a value stays behind its flag)
             groups, i = [], 0
             takes = {"-i", "-d", "-sd", "-rd", "--duplicate-packets", "-p"}
